@@ -332,6 +332,7 @@ type Interp struct {
 	FieldStores map[*types.Var]bool
 	NoInline    func(f *types.Func) bool
 	symOrigin   map[int]types.Type // static type a wire symbol was read as
+	readFills   map[int]*Sym       // byte mode: the read that filled a make()d buffer
 	// SentinelErrors: package-level error variables built by errors.New and never reassigned are non-nil
 	SentinelErrors bool
 	pureGetter     map[*types.Func]int
